@@ -7,7 +7,7 @@ RULE = ("one case = one seed = (generated spec with 2-8 inline/builtin meshes, 1
         "policy random/sticky/PCT/starve, basic-block preemption 0/0.01%/0.1%/1%, spurious condition-variable wake-ups); reference bytes = "
         "mj_saveModel of the usethread=0 compile; then, under the case's schedule: usethread=1 compile, second compile of the same spec, "
         "mj_copySpec compiled threaded and unthreaded, mj_copyModel, mj_recompile on a stepped mjData (model bytes + bit-identical time/qpos/"
-        "qvel/act/ctrl), threaded compile of a re-parsed spec, and (half of the cases) a spec edit through the mjs API (new hinged body, new static geom) followed by mj_recompile in place: sizes, time, qpos/qvel/act/ctrl of everything that still exists bit-identical, new joint at qpos0, model identical to a fresh compile of a copy of the edited spec; every model must be byte-identical to the reference (the recorded fusestatic findings are counted in-driver for the steps that "
+        "qvel/act/ctrl), threaded compile of a re-parsed spec, a mesh file replaced in the VFS by a near-identical one (warm-cache compile must equal the cold-cache compile), and (half of the cases) a spec edit through the mjs API (new hinged body, new static geom) followed by mj_recompile in place: sizes, time, qpos/qvel/act/ctrl of everything that still exists bit-identical, new joint at qpos0, model identical to a fresh compile of a copy of the edited spec; every model must be byte-identical to the reference (the recorded fusestatic findings are counted in-driver for the steps that "
         "re-use a compiled fusestatic spec, nothing else is tolerated); a case is non-trivial when "
         ">=2 simulated threads were runnable at once; distinct = distinct hash of the scheduling trace")
 ASSUME = [
@@ -20,7 +20,7 @@ ASSUME = [
 
 def run(tier):
     if tier == "quick":
-        plan = [dict(variant="sim", runs=1600, label="sim", timeout=280), dict(variant="simtsan", runs=320, label="simtsan", timeout=280)]
+        plan = [dict(variant="sim", runs=1600, label="sim", timeout=280), dict(variant="simtsan", runs=240, label="simtsan", timeout=280)]
     else:
         plan = [dict(variant="sim", runs=200000, label="sim", timeout=3400), dict(variant="simtsan", runs=30000, label="simtsan", timeout=3400)]
     return e1.run_e1("C33", tier, "c33.cc", plan, nops=6, rule=RULE, assumptions=ASSUME, design_ref="3/C33")
